@@ -1,10 +1,21 @@
-// Package c15 decides property C15 (see /verif/DESIGN.md §5).
+// Package c15 decides property C15 (see /verif/DESIGN.md §5): speculative
+// register state commits and rolls back by program order.
+//
+// One run index is one seeded history of write(reg, value, tag) / read(reg,
+// tag) / commit / rollback(s) / flush operations (gen.go). The history is
+// executed against three real components: the transaction map of a
+// risc.Context, the rename table of a risc.Context, and a bare comp.RAT of
+// ring length 2..10. The oracle (model.go) is a per-register list of the
+// uncommitted (tag, value) writes plus the committed value.
 package c15
 
 import (
 	"encoding/json"
+	"fmt"
 
 	"verifsim/internal/api"
+	"verifsim/internal/findings"
+	"verifsim/internal/rng"
 )
 
 type check struct{}
@@ -16,13 +27,329 @@ func (check) ID() string { return "C15" }
 
 func (check) Runs(tier string) int {
 	if tier == "thorough" {
-		return 100000
+		return 5000000
 	}
-	return 1000
+	return 50000
 }
 
-func (check) Run(b api.Batch) *api.Result { return api.NewResult() }
+var modes = [3]string{"txmap", "rat", "ring"}
 
-func (check) Replay(payload json.RawMessage) (*api.Violation, error) { return nil, nil }
+// outcome of one execution: the first violation not stepped over, the
+// violations stepped over (open known findings), the observations.
+type outcome struct {
+	f     *finding
+	known []*finding
+	trace []int32
+}
 
-func (check) Describe() api.Description { return api.Description{Level: "exploration"} }
+// first returns the violation to report for this execution.
+func (o outcome) first() *finding {
+	if o.f != nil {
+		return o.f
+	}
+	if len(o.known) > 0 {
+		return o.known[0]
+	}
+	return nil
+}
+
+// execute runs h on a fresh instance of the real component of h.Mode.
+func execute(h *History, tol func(string) bool) (out outcome) {
+	f, known, trace := execute1(h, tol)
+	return outcome{f, known, trace}
+}
+
+func execute1(h *History, tol func(string) bool) (f *finding, known []*finding, trace []int32) {
+	defer func() {
+		if p := recover(); p != nil {
+			f = &finding{Class: "panic:setup", Detail: fmt.Sprintf("setting up mode %s panicked: %v", h.Mode, p), OpIdx: -1}
+		}
+	}()
+	switch h.Mode {
+	case "txmap":
+		f = checkMachine(h, newCtxMachine(false, h.Init), 1, "", &trace, tol, &known)
+	case "rat":
+		f = checkMachine(h, newCtxMachine(true, h.Init), ctxRatLength, "rat-", &trace, tol, &known)
+	case "ring":
+		f = checkRing(h, realRing, &trace, tol, &known)
+	default:
+		panic("unknown mode " + h.Mode)
+	}
+	return f, known, trace
+}
+
+func sameOutcome(a, b outcome) bool {
+	f1, f2, t1, t2 := a.f, b.f, a.trace, b.trace
+	if (f1 == nil) != (f2 == nil) || len(a.known) != len(b.known) {
+		return false
+	}
+	if f1 != nil && (f1.Class != f2.Class || f1.OpIdx != f2.OpIdx) {
+		return false
+	}
+	if len(t1) != len(t2) {
+		return false
+	}
+	for i := range t1 {
+		if t1[i] != t2[i] {
+			return false
+		}
+	}
+	return true
+}
+
+// executeChecked executes h 1+reruns times; an outcome of the real code that
+// differs between executions of the same history (Context iterates Go maps) is
+// a finding of its own.
+func executeChecked(h *History, reruns int, tol func(string) bool) outcome {
+	o := execute(h, tol)
+	for k := 0; k < reruns; k++ {
+		o2 := execute(h, tol)
+		if !sameOutcome(o, o2) {
+			d1, d2 := "no violation", "no violation"
+			if f := o.first(); f != nil {
+				d1 = f.Class + ": " + f.Detail
+			}
+			if f := o2.first(); f != nil {
+				d2 = f.Class + ": " + f.Detail
+			}
+			return outcome{f: &finding{Class: "nondeterministic", OpIdx: -1,
+				Detail: fmt.Sprintf("the same history gave different outcomes in two executions (map iteration order?): [%s] vs [%s]; observations %v vs %v", d1, d2, o.trace, o2.trace)}}
+		}
+	}
+	return o
+}
+
+func validate(h *History) error {
+	switch h.Mode {
+	case "txmap":
+		h.Ring = 1
+	case "rat":
+		h.Ring = ctxRatLength
+	case "ring":
+		if h.Ring < 1 || h.Ring > 64 {
+			return fmt.Errorf("ring length %d out of range", h.Ring)
+		}
+	default:
+		return fmt.Errorf("unknown mode %q", h.Mode)
+	}
+	if h.Regs < 1 || h.Regs > maxRegs {
+		return fmt.Errorf("regs %d out of range 1..%d", h.Regs, maxRegs)
+	}
+	if len(h.Init) > h.Regs {
+		return fmt.Errorf("init has %d entries for %d registers", len(h.Init), h.Regs)
+	}
+	if len(h.Ops) > 4096 {
+		return fmt.Errorf("history too long")
+	}
+	for i, o := range h.Ops {
+		switch o.K {
+		case "w":
+			if o.T < 1 {
+				return fmt.Errorf("op %d: write tag must be >= 1", i)
+			}
+			if o.R < 0 || o.R >= h.Regs {
+				return fmt.Errorf("op %d: register out of range", i)
+			}
+		case "r":
+			if o.T < 0 {
+				return fmt.Errorf("op %d: negative tag", i)
+			}
+			if o.R < 0 || o.R >= h.Regs {
+				return fmt.Errorf("op %d: register out of range", i)
+			}
+		case "rb":
+			if o.T < 1 {
+				return fmt.Errorf("op %d: rollback tag must be >= 1", i)
+			}
+		case "c", "f":
+		default:
+			return fmt.Errorf("op %d: unknown kind %q", i, o.K)
+		}
+	}
+	return nil
+}
+
+// sameAs is the shrink predicate: the candidate still fails first with the
+// same class and the same known-finding trigger.
+func sameAs(want *finding, tol func(string) bool) func(*History) *finding {
+	return func(c *History) *finding {
+		g := execute(c, tol).f
+		if g != nil && g.Class == want.Class && g.KF == want.KF {
+			return g
+		}
+		return nil
+	}
+}
+
+func toViolation(h *History, f *finding, kf *findings.Set) api.Violation {
+	payload, _ := json.Marshal(h)
+	detail := fmt.Sprintf("[mode %s, %d slot(s), %s arrival] %s | history: %s", h.Mode, h.Ring, h.Arrival, f.Detail, h.String())
+	v := api.Violation{Property: "C15", Class: f.Class, Detail: detail, Replay: payload}
+	if f.KF != "" {
+		v.Detail += " | trigger " + f.KF
+		if kf != nil && kf.IsOpen("C15", f.KF) {
+			v.KnownFinding = f.KF
+		}
+	}
+	return v
+}
+
+const (
+	maxFreshPerClass = 3    // fresh violations written out per class and batch
+	kfWindow         = 2000 // run indices at the start of each block in which an open known finding is still emitted
+)
+
+func (c check) Run(b api.Batch) *api.Result {
+	res := api.NewResult()
+	if err := loadReaders(); err != nil {
+		res.Violations = append(res.Violations, api.Violation{Property: "C15", Class: "panic:setup", Detail: err.Error(), RunIndex: b.From, Seed: b.Seed, Replay: json.RawMessage(`{}`)})
+		return res
+	}
+	kf := findings.Default()
+	block := c.Runs(b.Tier) / 8
+	if block < 1 {
+		block = 1
+	}
+	emitted := map[string]int{}
+	tol := func(id string) bool { return kf.IsOpen("C15", id) }
+
+	for i := b.From; i < b.To; i++ {
+		r := rng.New(rng.Derive(b.Seed, uint64(i)))
+		h, info := generate(r)
+		ringLen := r.Range(2, 10)
+		reruns := 1
+		if r.Chance(1, 8) {
+			reruns = 4
+		}
+
+		res.Evaluations++
+		sub := h.Arrival // "inorder" | "ooo": the sub-batch this history belongs to
+		res.Count("histories_"+sub, 1)
+		res.Count("histories_profile_"+profName[info.profile], 1)
+		a := analyse(h, []namedLen{{"ctx_rat", ctxRatLength}, {"direct", ringLen}, {"txmap_slot", 1}})
+		for k, v := range a.counters {
+			res.Count(k, v)
+		}
+		if a.nonTrivial {
+			res.Seen(a.hash)
+			res.Count("histories_nontrivial", 1)
+		}
+		if i-b.From < 3 {
+			res.AddSample(map[string]any{"run": i, "profile": profName[info.profile], "arrival": sub, "regs": h.Regs, "init": h.Init, "direct_ring_length": ringLen, "history": h.String()}, 3)
+		}
+
+		for _, mode := range modes {
+			hh := h.clone()
+			hh.Mode = mode
+			switch mode {
+			case "txmap":
+				hh.Ring = 1
+			case "rat":
+				hh.Ring = ctxRatLength
+			case "ring":
+				hh.Ring = ringLen
+			}
+			out := executeChecked(hh, reruns, tol)
+			res.SimCycles += int64(len(hh.Ops))
+			res.Count("executions_"+mode, 1)
+			if out.f == nil && len(out.known) == 0 {
+				res.Count("pass_"+mode+"_"+sub, 1)
+				continue
+			}
+			// open known findings stepped over: counted per trigger and sub-batch
+			for _, k := range out.known {
+				res.Count("known_"+k.KF+":"+mode+":"+k.Class+"_"+sub, 1)
+			}
+			if out.f == nil {
+				res.Count("pass_but_for_known_findings_"+mode+"_"+sub, 1)
+				// A few are still handed to the driver (which only counts them),
+				// few enough not to crowd out fresh violations.
+				k := out.known[0]
+				key := "known|" + k.KF + "|" + mode
+				if emitted[key] >= 1 || i%block >= kfWindow {
+					continue
+				}
+				emitted[key]++
+				sh, sf := shrink(hh, k, sameAs(k, nil))
+				v := toViolation(sh, sf, kf)
+				v.RunIndex, v.Seed = i, b.Seed
+				res.Violations = append(res.Violations, v)
+				continue
+			}
+			f := out.f
+			res.Count("viol_"+sub+":"+mode+":"+f.Class, 1)
+			if f.KF != "" {
+				res.Count("trigger_"+f.KF+"_"+sub, 1)
+			}
+			key := f.Class + "|" + f.KF + "|" + mode
+			if emitted[key] >= maxFreshPerClass {
+				res.Count("violations_not_written_out", 1)
+				continue
+			}
+			emitted[key]++
+			sh, sf := hh, f
+			if f.Class != "nondeterministic" {
+				sh, sf = shrink(hh, f, sameAs(f, tol))
+			}
+			v := toViolation(sh, sf, kf)
+			v.RunIndex, v.Seed = i, b.Seed
+			res.Violations = append(res.Violations, v)
+		}
+	}
+	return res
+}
+
+func (check) Replay(payload json.RawMessage) (*api.Violation, error) {
+	if err := loadReaders(); err != nil {
+		return nil, err
+	}
+	var h History
+	if err := json.Unmarshal(payload, &h); err != nil {
+		return nil, fmt.Errorf("C15 replay payload: %v", err)
+	}
+	if err := validate(&h); err != nil {
+		return nil, fmt.Errorf("C15 replay payload: %v", err)
+	}
+	h.Arrival = arrivalOf(h.Ops)
+	kf := findings.Default()
+	// Same stepping-over as Run, so that a replay decides what Run decided; a
+	// history whose only violations are open known findings reproduces the first of them.
+	f := executeChecked(&h, 8, func(id string) bool { return kf.IsOpen("C15", id) }).first()
+	if f == nil {
+		return nil, nil
+	}
+	v := toViolation(&h, f, kf)
+	return &v, nil
+}
+
+func (check) Describe() api.Description {
+	return api.Description{
+		Level: "exploration",
+		Rule: "one evaluation = one seeded history (<= 60 ops, 2-3 registers) executed against the transaction map, the Context rename table and a bare comp.RAT; " +
+			"a history is non-trivial iff it contains a rollback(s) with, for some register, uncommitted writes both older than s and not older than s, " +
+			"or a commit while some register has >= 2 uncommitted writes; distinct = hash of the reference-model state sequence " +
+			"(op kind, register, tag, committed write identity and in-flight (tag, write ordinal) lists per register after every op; values canonicalised to write ordinals)",
+		Real: []string{
+			"risc.Context transaction map: NewContext(false,..,false), TransactionWriteRegister, Commit, Rollback, Registers",
+			"risc.Context rename table: NewContext(false,..,true), InitRAT, TransactionRATWrite, RATCommit, RATRollback, RATFlush (comp.RAT ring length 10)",
+			"comp.RAT[int,{tag,value}] directly with ring length 2..10: Write, Read, Find, Values, FindValues",
+			"risc.Parse(\"mv t6, <reg>\") + mv.Run(ctx, labels, 0, nil, tag) -> risc.registerRead as the tag-bounded reader",
+		},
+		Stub: []string{
+			"write units (MVP-6.2/6.3/7.0 wu.go) replaced by a seeded write-back task completing pending writers in tag order per register or out of order",
+			"branch unit (bu.go notifyConditionalBranchTaken/NotTaken) replaced by a seeded task issuing commit or rollback(s)",
+			"execute units replaced by a seeded reader task; fetch/decode replaced by an issue stage handing out increasing tags",
+		},
+		Assumptions: []string{
+			"tags are >= 1 and unique per history (tag 0 means 'plain read' in registerRead; the machine gives pc 0 of epoch 0 the tag 0, which is not exercised)",
+			"written values are unique and non-zero, so the write a returned value came from is identified exactly",
+			"'youngest' = greatest tag; within the slots a commit/rollback must yield the greatest-tag write; beyond the slots (and for plain reads) a value is accepted if it is the greatest-tag OR the latest-arrived write; beyond the slots rollbacks and tag-bounded reads are not judged",
+			"a tag-bounded read is only required not to return a younger write's value; returning an older-than-necessary value is counted, not flagged",
+			"a write with tag == s is not older than s and is discarded by rollback(s)",
+			"architectural value = ctx.Registers (transaction map) / plain read right after RATCommit/RATRollback and ctx.Registers after RATFlush (rename table)",
+			"the direct comp.RAT histories are judged against a list model of the last `length` writes per key with the predicates Context uses (tag <= t, tag < s)",
+			"transaction-map histories include tag orders MVP-6.2 itself cannot produce (its control unit blocks WAW/WAR and reads with tag 0); the statement quantifies over arbitrary tag orders",
+		},
+		FaultKinds: []string{"rollback at tag s (among / just below / just above the tags in flight)", "commit", "flush", "out-of-order arrival", "ring wrap"},
+	}
+}
